@@ -104,9 +104,11 @@ def gen_hot_ops(rng, cfg, n):
     counters saturate, the SIEVE hand passes the same record many times), a stream of cold keys forcing eviction passes"""
     univ = cfg["univ"]
     hot = rng.sample(range(univ), rng.choice([1, 1, 2]))
+    # unit weights, or mixed ones (a heavy entry moving between segments displaces several light ones at once)
+    wts = rng.choice([[1], [1], [1, 1, 2, 3]])
     ops, nexth, nextv, cold = [], 1, 1, 0
     for k in hot:
-        ops += [f"ins k={k} v={nextv} w=1 low=0 ph=0 h={nexth}", f"drop h={nexth}"]; nexth += 1; nextv += 1
+        ops += [f"ins k={k} v={nextv} w={rng.choice(wts)} low=0 ph=0 h={nexth}", f"drop h={nexth}"]; nexth += 1; nextv += 1
     for _ in range(n):
         r = rng.random()
         if r < 0.45:
@@ -115,12 +117,12 @@ def gen_hot_ops(rng, cfg, n):
                 ops += [f"get k={k} h={nexth}", f"drop h={nexth}"]; nexth += 1
         elif r < 0.5:
             k = rng.choice(hot)
-            ops += [f"ins k={k} v={nextv} w=1 low=0 ph=0 h={nexth}", f"drop h={nexth}"]; nexth += 1; nextv += 1
+            ops += [f"ins k={k} v={nextv} w={rng.choice(wts)} low=0 ph=0 h={nexth}", f"drop h={nexth}"]; nexth += 1; nextv += 1
         else:
             cold = (cold + 1) % univ
             while cold in hot:
                 cold = (cold + 1) % univ
-            ops += [f"ins k={cold} v={nextv} w=1 low=0 ph=0 h={nexth}", f"drop h={nexth}"]; nexth += 1; nextv += 1
+            ops += [f"ins k={cold} v={nextv} w={rng.choice(wts)} low=0 ph=0 h={nexth}", f"drop h={nexth}"]; nexth += 1; nextv += 1
     ops.append("dropcache")
     return ops
 
